@@ -5,9 +5,11 @@
 package rep
 
 //@ struct pipe
+//@   never_closed: sendQ
 //@   immutable: s p sendQ closeQ
 //@
 //@ struct socket
+//@   invariant sendQLen >= 0
 //@   lock Mutex level 20
 //@   guarded_by Mutex: closed ttl sendQLen contexts
 //@   immutable: master recvQ
